@@ -109,6 +109,7 @@ func (s C15) Events(env world.Env, m mc.Model) []string {
 	// account B also signs with the (valid) all-capitals spelling of its address
 	evs = append(evs, "InitUpper:B", "ShutdownUpper:B")
 	evs = append(evs, "InitLong:A", "ShutdownLong:A") // the 32-byte account whose address string extends A's
+	evs = append(evs, "InitZero:A", "InitZero:B")     // a registration that offers no space at all
 	evs = append(evs, "Price:1", "Price:2", "Price:half")
 	if m.(c15Model).Blocks < 1 {
 		evs = append(evs, "NextBlock")
@@ -168,7 +169,7 @@ func (C15) Apply(env world.Env, mm mc.Model, ev string) mc.Step {
 		if env.Deliver(msg).OK() {
 			st.Outcome = "ok"
 		}
-	case "Init", "InitUpper", "InitLong":
+	case "Init", "InitUpper", "InitLong", "InitZero":
 		who := w.A(p[1])
 		creator := who.Bech
 		payer := who.Bech
@@ -180,6 +181,9 @@ func (C15) Apply(env world.Env, mm mc.Model, ev string) mc.Step {
 			payer = creator
 		}
 		msg := storagetypes.NewMsgInitProvider(creator, "https://"+p[1]+".example.com", 1_000_000, "kb")
+		if p[0] == "InitZero" {
+			msg.TotalSpace = 0
+		}
 		var res world.TxResult
 		if p[0] == "InitLong" {
 			res = env.DeliverUnsigned(msg)
